@@ -110,7 +110,7 @@ def _compile(cmd, obj):
     return (True, "")
 
 
-def executor_objects(name, config, extra_flags=""):
+def executor_objects(name, config, extra_flags="", always_cmd=False):
     """returns list of (object path, compile command or None if cached)"""
     cfg = CONFIGS[config]
     inc = tree_hash(REPO, "include")
@@ -124,11 +124,11 @@ def executor_objects(name, config, extra_flags=""):
         obj = os.path.join(BUILD, "obj", key + ".o")
         cmd = [cfg["cxx"]] + cfg["flags"].split() + defs.split() + extra_flags.split() + [
             "-I" + os.path.join(REPO, "include"), "-I" + os.path.join(VERIF, "harness"), "-c", srcp]
-        out.append((obj, None if os.path.exists(obj) else cmd))
+        out.append((obj, cmd if always_cmd or not os.path.exists(obj) else None))
     return out
 
 
-def frontend_objects(name):
+def frontend_objects(name, always_cmd=False):
     srcs, _ = FRONTENDS[name]
     har = tree_hash(VERIF, "harness")
     drv = tree_hash(VERIF, "driver")
@@ -143,7 +143,15 @@ def frontend_objects(name):
         key = _sha(har, drv, src, cxx, _compiler_version(cxx), flags)
         obj = os.path.join(BUILD, "fe", key + ".o")
         cmd = [cxx] + flags.split() + ["-I" + os.path.join(VERIF, "harness"), "-I" + os.path.join(VERIF, "driver"), "-c", srcp]
-        out.append((obj, None if os.path.exists(obj) else cmd))
+        out.append((obj, cmd if always_cmd or not os.path.exists(obj) else None))
+    return out
+
+
+def _commands_for(fe, ex, config):
+    """(object, compile command) of every object of a target, whether cached or not"""
+    out = []
+    for fn, args in ((frontend_objects, (fe,)), (executor_objects, (ex, config))):
+        out += fn(*args, always_cmd=True)
     return out
 
 
@@ -158,6 +166,11 @@ def build_many(targets, log=sys.stderr):
         for obj, cmd in objs:
             if cmd is not None:
                 compile_jobs[obj] = cmd
+            else:
+                try:
+                    os.utime(obj, None)  # in use: the pruner of a concurrent run removes the oldest files first
+                except OSError:
+                    pass
         key = _sha(fe, ex, config, *[o for o, _ in objs])
         plan[t] = (os.path.join(BUILD, "bin", "%s_%s_%s_%s" % (fe, ex, config, key)), [o for o, _ in objs])
     if compile_jobs:
@@ -177,11 +190,22 @@ def build_many(targets, log=sys.stderr):
         if not os.path.exists(binp):
             os.makedirs(os.path.dirname(binp), exist_ok=True)
             cfg = CONFIGS[config]
+            # an object that was cached when the plan was made may have been pruned by a concurrent run: compile it again
+            for obj, cmd in _commands_for(fe, ex, config):
+                if not os.path.exists(obj):
+                    ok, err = _compile(cmd, obj)
+                    if not ok:
+                        raise BuildError("compilation failed", err)
             cmd = [cfg["cxx"]] + cfg["ld"].split() + objs + FRONTENDS[fe][1].split() + ["-lpthread", "-o", binp + ".tmp%d" % os.getpid()]
             r = subprocess.run(cmd, capture_output=True, text=True)
             if r.returncode != 0:
                 raise BuildError("link failed", " ".join(cmd) + "\n" + r.stderr[-6000:])
             os.replace(binp + ".tmp%d" % os.getpid(), binp)
+        else:
+            try:
+                os.utime(binp, None)
+            except OSError:
+                pass
         out[t] = binp
     return out
 
